@@ -22,6 +22,8 @@ func VP_C04_text() {
 	m := StringifiedMessage(text)
 	var w vpBuf
 	err := m.MarshalNBT(&w)
+	vp.Observe("accepted", err == nil)
+	vp.Observe("out", w.b)
 	if err == nil {
 		tag := m.TagType()
 		st, end := vp.RefNBT(w.b, 0, tag, 0)
